@@ -730,6 +730,10 @@ def analysis_functions(prj: "Project", roots) -> list:
             for t in tg:
                 if t.qual not in seen:
                     todo.append(prj.func(t.qual))
+        # implicit calls (special methods of constructed objects, properties, functions passed as values)
+        for q in prj.callgraph.edges.get(f.qual, ()):
+            if q not in seen and q in prj.funcs:
+                todo.append(prj.func(q))
     return sorted(out, key=lambda f: f.qual)
 
 
@@ -798,6 +802,31 @@ class CallGraph:
             # a nested def is considered called by its definer (callbacks, closures)
             for sub in fi.nested.values():
                 es.add(sub.qual)
+            # implicit calls: whoever constructs an instance of a project class may trigger its special methods (iteration,
+            # len, comparison, context manager ...); an attribute load whose name is a property of a project class may run it;
+            # a function passed as a value (map(self.measure, ...), key=helper, callbacks) may be called
+            for call in fi.calls():
+                ci = prj.resolve_ctor(fi, call) if hasattr(prj, "resolve_ctor") else None
+                if ci is not None:
+                    for c in ci.mro():
+                        for nm, m in c.methods.items():
+                            if nm.startswith("__") and nm.endswith("__") and nm != "__init__":
+                                es.add(m.qual)
+            for n in fi.walk():
+                if isinstance(n, ast.Attribute) and isinstance(n.ctx, ast.Load):
+                    par = fi.parents.get(n)
+                    is_callee = isinstance(par, ast.Call) and par.func is n
+                    own = isinstance(n.value, ast.Name) and n.value.id in ("self", "cls")
+                    for m in prj.methods_named(n.attr):
+                        if m.is_property() or (not is_callee and own and fi.cls is not None and m.cls in fi.cls.mro()):
+                            es.add(m.qual)
+                elif isinstance(n, ast.Name) and isinstance(n.ctx, ast.Load):
+                    par = fi.parents.get(n)
+                    if isinstance(par, ast.Call) and par.func is n:
+                        continue
+                    tgt = prj.resolve_name_in_module(fi.module, n.id) if n.id not in fi.params() else None
+                    if isinstance(tgt, FuncInfo):
+                        es.add(tgt.qual)
         # module-level code (e.g. class bodies instantiating languages)
         self.callers: dict[str, set[str]] = {}
         for a, bs in self.edges.items():
